@@ -64,6 +64,11 @@ def when(l, r):
     return node("when", "", (), (l, r))
 
 
+def err(h):
+    """an error-provoking component (spec/Eval.tla, kind "err"): add(<header>, 1) over a cell that need not be a number"""
+    return node("err", "", (), (h,))
+
+
 # ---- rendering -------------------------------------------------------------------------------------
 
 
@@ -96,6 +101,8 @@ def render(n):
         return f'{render(n["args"][0])} = {render(n["args"][1])}'
     if k == "when":
         return f'{render(n["args"][0])} -> {render(n["args"][1])}'
+    if k == "err":
+        return f'add({render(n["args"][0])}, 1)'
     raise ValueError(k)
 
 
